@@ -55,7 +55,7 @@ HeaderLoop(lines, pos, peeked, hdrs) ==
       ELSE IF ln.k = "COM" THEN HeaderLoop(lines, r[2], r[3], hdrs)
       ELSE IF ln.k = "REQ" /\ RequestEndsHeaders
            THEN [ok |-> TRUE, hdrs |-> hdrs, body |-> TC!NoBody, pos |-> r[2], peeked |-> r[1]]   \* sc.peeked = line
-      ELSE IF ln.k = "BODY" THEN [ok |-> TRUE, hdrs |-> hdrs, body |-> ln.a, pos |-> r[2], peeked |-> r[3]]
+      ELSE IF ln.k = "BODY" THEN [ok |-> TRUE, hdrs |-> hdrs, body |-> TC!OwnBody(ln), pos |-> r[2], peeked |-> r[3]]
       ELSE IF ln.k = "HDR" THEN HeaderLoop(lines, r[2], r[3], Append(hdrs, ln))
       ELSE \* historic code: a request line is split at its first colon and taken for a header
            HeaderLoop(lines, r[2], r[3], Append(hdrs, [k |-> "HDR", a |-> "<request line as header>", b |-> ln.b]))
